@@ -113,14 +113,16 @@ Proof.
   intros [[HI Hl Hp] Ht] HI2 Hs. split.
   - constructor; cbn [with_g ls_g ls_lits].
     + exact HI2.
-    + intros l z Hz. apply (sh_keep _ _ Hs z _ (Hl l z Hz)). discriminate.
-    + intros z l Hz. apply (Hp z l). rewrite <- (sh_label _ _ Hs z); [exact Hz|]. unfold sg_alive. now rewrite Hz.
+    + intros l z Hz. apply (sh_keep _ _ Hs z _ (Hl l z Hz)); discriminate.
+    + intros z l Hz. apply (Hp z l).
+      destruct (sh_label _ _ Hs z) as [E|[_ E]]; [unfold sg_alive; now rewrite Hz|congruence|congruence].
   - intros f o Hfo. cbn [with_g ls_g ls_tri] in *. destruct (Ht f o Hfo) as [Hf [Hlo [n [p [Ho [Hn Hp']]]]]].
-    assert (Hlo2 : sg_label g2 o = Some GOr) by (apply (sh_keep _ _ Hs o _ Hlo); discriminate).
-    split; [exact Hf|]. split; [exact Hlo2|]. exists n, p.
-    split; [|split; [apply (sh_keep _ _ Hs n _ Hn); discriminate|apply (sh_keep _ _ Hs p _ Hp'); discriminate]].
-    rewrite (sh_out _ _ Hs o); [exact Ho|unfold sg_alive; now rewrite Hlo2|].
-    intros c Hc. rewrite Ho in Hc. destruct Hc as [<-|[<-|[]]]; eexists; eassumption.
+    assert (Hao : sg_alive g2 o = true).
+    { unfold sg_alive. destruct (sh_or _ _ Hs o Hlo) as [E|E]; now rewrite E. }
+    destruct (sh_out _ _ Hs o Hao) as [Hlo2 Ho2].
+    { intros c Hc. rewrite Ho in Hc. destruct Hc as [<-|[<-|[]]]; eexists; eassumption. }
+    split; [exact Hf|]. split; [congruence|]. exists n, p.
+    split; [congruence|split; [apply (sh_keep _ _ Hs n _ Hn); discriminate|apply (sh_keep _ _ Hs p _ Hp'); discriminate]].
 Qed.
 
 (* a removed root makes get_literal_diffs panic *)
@@ -147,13 +149,13 @@ Theorem load_d4_gen_sem toks n0 C n' : d4_ok toks ->
   load_d4_gen rc ord toks n0 = Some (C, n') ->
   n' = Nat.max n0 (d4_maxvar toks) /\ forall a, eval_root a C = eval_d4 toks a.
 Proof.
-  intros [Hnz [b0 Hterm]] H. unfold load_d4_gen in H.
+  intros [Hnz [b0 Hterm]] H. unfold load_d4_gen, load_d4_gen_with in H. fold (build_d4_graph rc ord) in H.
   destruct (build_d4_graph rc ord toks n0) as [[[g root] total]|] eqn:Eb; [|discriminate].
   destruct (negb (sg_alive g root)) eqn:Hroot; [discriminate|]. apply negb_false_iff in Hroot.
   destruct (dfs_post_order (to_graph g) root) as [order|] eqn:Ed; [|discriminate].
   destruct (flatten (to_graph g) order [] []) as [C0|] eqn:Ef; [|discriminate].
   cbn [option_map] in H. injection H as <- <-.
-  unfold build_d4_graph in Eb.
+  unfold build_d4_graph, build_d4_graph_with in Eb.
   destruct (d4_lines rc _ toks) as [b|] eqn:El; [|discriminate].
   destruct (negb (sg_alive (ls_g (bs_ls b)) 0)) eqn:H0; [discriminate|]. apply negb_false_iff in H0.
   destruct (add_free rc (bs_occ b) (seq 1 (bs_total b)) 0 (bs_ls b)) as [[root1 s1]|] eqn:Efree; [|discriminate].
